@@ -51,6 +51,13 @@ def make_case(rng):
     lines.append("rule key_in {\n    this[ keys in [%s] ] exists\n}" % ", ".join(gen.glit(k) for k in rng.sample(keys, min(2, nkeys))))
     lines.append("rule key_regex {\n    this[ keys == /^%s/ ] !empty\n}" % kk[:2])
     lines.append("rule nkeys {\n    let vals = this.*\n    %%vals !empty\n    some %%vals == %s\n}" % gen.glit(M[rng.choice(keys)]))
+    if rng.random() < 0.35:
+        # a rules file that never spells a key of the merged document: it only walks the root map and counts its entries
+        pk = rng.choice([k for p_ in P for k in p_] or keys)
+        scal = [v for v in M.values() if isinstance(v, (int, str)) and not isinstance(v, bool)]
+        lines = ["rule count_entries {\n    let n = count(this.*)\n    %%n == %d\n}" % len(M),
+                 "rule some_value {\n    some this.* == %s\n}" % gen.glit(M[pk] if not isinstance(M[pk], (list, dict)) else (scal[0] if scal else 1)),
+                 "rule walk_keys {\n    this[ keys == /./ ] !empty\n    let vals = this.*\n    %vals !empty\n}"]
     return M, D, P, "\n".join(lines) + "\n"
 
 
